@@ -267,6 +267,9 @@ pub struct Case {
     pub wakati: bool,
     /// 0 yes, 1 no, 2 only
     pub split: u8,
+    /// bit 0: the text is piped to standard input instead of being named as a file; bit 1: the output goes to `-o FILE`
+    #[serde(default)]
+    pub io: u8,
 }
 
 pub struct C19;
@@ -360,7 +363,7 @@ impl Property for C19 {
     fn rule(&self) -> &'static str {
         "two generated families on 6 worlds (the repository's python test fixture compiled from its CSV sources + 5 generated dictionary / configuration pairs, all loaded from files \
          exactly like the tools do): (a) CLI: files of 1-6 lines (dictionary words, sentence terminators, blank lines, CRLF, no final newline) x -m A|B|C x default | -a | -w x \
-         --split-sentences yes|no|only are fed to the freshly built `sudachi` binary; stdout must equal the README format applied to the library's own sentence splitting and \
+         --split-sentences yes|no|only are fed to the freshly built `sudachi` binary (named as a file or piped to standard input; output on standard output or through -o FILE); stdout must equal the README format applied to the library's own sentence splitting and \
          analysis of every line WITHOUT its terminator (`only`: compared modulo newlines). (b) Python (Hypothesis, py/c19_check.py, counted under classes python:*): call \
          histories over create(mode, fields, projection) / tokenize(text[, mode][, out=]) / indexing / every Morpheme accessor / split(mode[, out][, add_single]) / \
          Dictionary.lookup against the Rust oracle server; text[begin:end] must be the raw surface; the interpreter must not crash. Non-trivial: a CLI file with a blank or \
@@ -377,8 +380,8 @@ impl Property for C19 {
         let line = (vec(line_piece(), 0..8), prop_oneof![4 => Just(0u8), 2 => Just(1u8)]).prop_map(|(pieces, eol)| Line { pieces, eol });
         // a filler line that puts its own line end on / next to a multiple of the 8 KiB block the tool reads in
         let filler = prop::option::weighted(0.2, (1usize..=3, -2i32..=2, proptest::sample::select(vec!["a", "あ", "a。"]), prop_oneof![1 => Just(0u8), 3 => Just(1u8)], 0usize..3));
-        (0u8..N_WORLDS as u8, vec(line, 1..=6), 0u8..3, any::<bool>(), prop::bool::weighted(0.3), prop_oneof![3 => Just(0u8), 2 => Just(1u8), 1 => Just(2u8)], any::<bool>(), filler)
-            .prop_map(|(world, mut lines, mode, all, wakati, split, final_nl, filler)| {
+        (0u8..N_WORLDS as u8, vec(line, 1..=6), 0u8..3, any::<bool>(), prop::bool::weighted(0.3), prop_oneof![3 => Just(0u8), 2 => Just(1u8), 1 => Just(2u8)], any::<bool>(), filler, prop_oneof![3 => Just(0u8), 1 => Just(1u8), 1 => Just(2u8), 1 => Just(3u8)])
+            .prop_map(|(world, mut lines, mode, all, wakati, split, final_nl, filler, io)| {
                 if let Some((k, d, unit, eol, at)) = filler {
                     // the filler is the first line, so its own line end lands exactly where asked
                     let (at, before) = (0usize * at, 0usize);
@@ -391,7 +394,7 @@ impl Property for C19 {
                         l.eol = 2;
                     }
                 }
-                Case { world, lines, mode, all, wakati, split }
+                Case { world, lines, mode, all, wakati, split, io }
             })
             .boxed()
     }
@@ -400,7 +403,7 @@ impl Property for C19 {
     }
     fn sample(&self, case: &Case) -> Value {
         let keys = worlds().as_ref().map(|w| w[case.world as usize % w.len()].keys.clone()).unwrap_or_default();
-        json!({"cli": {"world": case.world, "mode": mode_name(mode_of(case.mode)), "all": case.all, "wakati": case.wakati, "split": case.split,
+        json!({"cli": {"world": case.world, "mode": mode_name(mode_of(case.mode)), "all": case.all, "wakati": case.wakati, "split": case.split, "stdin": case.io & 1 != 0, "output_file": case.io & 2 != 0,
                "file": case.lines.iter().map(|l| format!("{}{}", render_pieces(&keys, &l.pieces), ["\\n", "\\r\\n", ""][l.eol as usize % 3])).collect::<Vec<_>>()}})
     }
     fn check(&self, case: &Case, ctx: &mut Ctx) -> Report {
@@ -457,7 +460,26 @@ impl Property for C19 {
             cmd.arg("-w");
         }
         cmd.arg("--split-sentences").arg(["yes", "no", "only"][case.split as usize % 3]);
-        cmd.arg(&input);
+        let via_stdin = case.io & 1 != 0;
+        let to_file = case.io & 2 != 0;
+        let out_file = ctx.dir.join("output.txt");
+        if to_file {
+            let _ = std::fs::remove_file(&out_file);
+            cmd.arg("-o").arg(&out_file);
+        }
+        if via_stdin {
+            match std::fs::File::open(&input) {
+                Ok(f) => {
+                    cmd.stdin(std::process::Stdio::from(f));
+                }
+                Err(e) => {
+                    rep.fail("harness-io", format!("{}", e));
+                    return rep;
+                }
+            }
+        } else {
+            cmd.arg(&input);
+        }
         let outp = match cmd.output() {
             Ok(o) => o,
             Err(e) => {
@@ -465,14 +487,35 @@ impl Property for C19 {
                 return rep;
             }
         };
-        let stdout = String::from_utf8_lossy(&outp.stdout).to_string();
+        let stdout = if to_file {
+            if !outp.stdout.is_empty() {
+                rep.fail("cli-output", format!("file {:?}: with -o FILE the tool still wrote {:?} to standard output", content, String::from_utf8_lossy(&outp.stdout)));
+                return rep;
+            }
+            match std::fs::read(&out_file) {
+                Ok(b) => String::from_utf8_lossy(&b).to_string(),
+                Err(e) if outp.status.success() => {
+                    rep.fail("cli-output", format!("file {:?}: -o FILE was not written: {}", content, e));
+                    return rep;
+                }
+                Err(_) => String::new(),
+            }
+        } else {
+            String::from_utf8_lossy(&outp.stdout).to_string()
+        };
+        if via_stdin {
+            rep.class("cli:text on standard input");
+        }
+        if to_file {
+            rep.class("cli:output to -o FILE");
+        }
         if !outp.status.success() {
             rep.fail("cli-exit-status", format!("file {:?}: exit {:?}, stderr {}", content, outp.status.code(), crate::driver::truncate(&String::from_utf8_lossy(&outp.stderr), 300)));
             return rep;
         }
         let same = if case.split % 3 == 2 { stdout.replace('\n', "") == expected.replace('\n', "") } else { stdout == expected };
         if !same {
-            rep.fail("cli-output", format!("file {:?} (world {}, -m {}{}{} --split-sentences {}): stdout {:?}, expected {:?}", content, case.world, mode_name(mode_of(case.mode)), if case.all { " -a" } else { "" }, if case.wakati { " -w" } else { "" }, ["yes", "no", "only"][case.split as usize % 3], stdout, expected));
+            rep.fail("cli-output", format!("file {:?} (world {}, -m {}{}{} --split-sentences {}): stdout {:?}, expected {:?}", content, case.world, mode_name(mode_of(case.mode)), if case.all { " -a" } else { "" }, if case.wakati { " -w" } else { "" }, ["yes", "no", "only"][case.split as usize % 3], stdout, expected) + if case.io & 1 != 0 { " (text on standard input)" } else { "" } + if case.io & 2 != 0 { " (output to -o FILE)" } else { "" });
             return rep;
         }
         rep.class("cli");
